@@ -765,6 +765,17 @@ def run_vunit(u: VUnit, scratch, tier: str):
     u.assumptions_found = core.scan_assumptions(text)
     js, stderr, wall = core.run_verus(gen_path, timeout=u.timeout, rlimit=u.rlimit)
     vr = js.get("verification-results", {})
+    # thorough tier: proof stability.  The same text is re-checked under other solver seeds; a proof that holds under one seed and not
+    # another is brittle (it would later fail for no semantic reason) and is reported as UNDECIDED, never as a violation.
+    unstable = None
+    if tier == "thorough" and vr and not js.get("timeout"):
+        for seed in (1, 2, 3):
+            js2, _, w2 = core.run_verus(gen_path, timeout=u.timeout, rlimit=u.rlimit, seed=seed)
+            wall += w2
+            vr2 = js2.get("verification-results", {})
+            if js2.get("timeout") or (vr2.get("verified"), vr2.get("errors")) != (vr.get("verified"), vr.get("errors")):
+                unstable = f"solver seed {seed}: {vr2.get('verified')} verified / {vr2.get('errors')} errors (seed 0: {vr.get('verified')} / {vr.get('errors')})"
+                break
     smt_ms = js.get("times-ms", {}).get("smt", {}).get("smt-run", 0)
     errs = parse_verus_errors(stderr)
     obs = []
@@ -790,6 +801,8 @@ def run_vunit(u: VUnit, scratch, tier: str):
         tool_problem = "verus rejected the generated text (unsupported construct / type error):\n" + "\n".join(h[2] for h in hard_errors[:4])
     elif not vr:
         tool_problem = "no verification result from verus:\n" + stderr[-1500:]
+    elif unstable:
+        tool_problem = "proof unstable under solver seeds (brittle): " + unstable
     nfun = max(1, len(fn_items) + len(u.lemma_obligations))
     for it in fn_items:
         lab = f"fn {_key(it)}"
@@ -838,6 +851,7 @@ def run_vunit(u: VUnit, scratch, tier: str):
                                 unit=u.name, detail=f"vacuity guard: `{v}` (requires ... ensures false) was ACCEPTED: the precondition is contradictory")
                 obs.append(ob)
     u._last_info = {"verified_fns": vr.get("verified"), "errors": vr.get("errors"), "smt_ms": smt_ms, "wall": wall,
+                    "stability": ("seeds 0-3 agree" if tier == "thorough" and not unstable else ("not run (quick tier)" if tier != "thorough" else unstable)),
                     "rewrites": {k: v["rewrites"] for k, v in info["functions"].items()},
                     "source_lines": {k: v["orig_lines"] for k, v in info["functions"].items()}}
     return obs, stderr[-6000:]
